@@ -380,8 +380,12 @@ def parseCmd (name : Bytes) (a : List Bytes) : Option Cmd :=
         if n == sb "bitfield_ro" && ops.any (·.kind != .get) then none else some (.bitfield k ops (n == sb "bitfield_ro"))
      | _ => none)
   else if n == sb "select" then (match a with | [i] => (int? i).map .select | _ => none)
-  else if n == sb "flushdb" then some .flushdb     -- optional ASYNC|SYNC ignored
-  else if n == sb "flushall" then some .flushall
+  else if n == sb "flushdb" || n == sb "flushall" then
+    let mode? := match a with
+      | [] => true
+      | [m] => lowerB m == sb "async" || lowerB m == sb "sync"
+      | _ => false
+    if mode? then some (if n == sb "flushdb" then .flushdb else .flushall) else none
   else if n == sb "multi" then (match a with | [] => some .multi | _ => none)
   else if n == sb "exec" then (match a with | [] => some .exec | _ => none)
   else if n == sb "discard" then (match a with | [] => some .discard | _ => none)
@@ -393,7 +397,12 @@ def parseCmd (name : Bytes) (a : List Bytes) : Option Cmd :=
   else if n == sb "hello" then
     (match a with
      | [] => some (.hello none)
-     | v :: _ => (int? v).map fun v => .hello (some v))
+     | v :: r => do
+       let v ← int? v
+       -- [AUTH user pass] [SETNAME name], in either order
+       let o ← parseOpts [(sb "auth", 2), (sb "setname", 1)] r []
+       let _ := o
+       pure (.hello (some v)))
   else if n == sb "client" then
     (match a with
      | s :: r =>
@@ -545,7 +554,8 @@ def runCmd (c : Ctx) (s : State) (conn : Nat) (ref : Nat) (inMulti : Bool) : Cmd
   | .mset kvs nx => onDb s ref fun db => cmdMSet c db kvs nx
   | .lcsLen a b => onDb s ref fun db =>
       match db.live c.now a, db.live c.now b with
-      | some { val := .str x, .. }, some { val := .str y, .. } => R.ok db (vInt (lcsLen x y))
+      | some { val := .str x, .. }, some { val := .str y, .. } =>
+        R.ok db (vInt (if c.q.lcsRunes then lcsLen (toRunes x) (toRunes y) else lcsLen x y))
       | some { val := .str _, .. }, none | none, some { val := .str _, .. } | none, none => R.ok db (.bulk [])
       | _, _ => R.ok db wrongType
   | .push k vs l x => onDb s ref fun db => cmdPush c db k vs l x
@@ -715,11 +725,7 @@ def isControl (n : Bytes) : Bool :=
   n == sb "multi" || n == sb "exec" || n == sb "discard" || n == sb "watch"
 
 def downIf (resp : Int) (c : Ctx) (v : Value) : Value :=
-  if resp == 2 then
-    (if c.q.resp2Scalars then down v else
-      -- the property's canonical conversion: doubles / verbatim text / big numbers become bulk strings, booleans 0/1
-      down v)
-  else v
+  if resp == 2 then (if c.q.resp2Scalars then down v else downSpec v) else v
 
 /-- run the queued commands of EXEC in order -/
 def execQueue (c : Ctx) (conn : Nat) : List Queued → State → List Value → List Match → List (Nat × Bytes × Nat) →
@@ -732,6 +738,8 @@ def execQueue (c : Ctx) (conn : Nat) : List Queued → State → List Value → 
       match parseCmd name args with
       | none => execQueue c conn r s (errArity name :: vs) (.exact :: hs) ps
       | some cmd =>
+        -- the implementation reads its clock again for every queued command
+        let c := { c with now := c.now + 1000 }
         let o := runCmd c s conn q.dbRef true cmd
         match o.crash with
         | some site => (o.st, vs.reverse, hs.reverse, ps, some site)
